@@ -201,11 +201,15 @@ func c15Run(t *testing.T, p c15Plan) (res vfResult) {
 				if st >= 500 {
 					body := string(resp.Body)
 					custom := p.ErrPages == 1 && st == 502
+					if custom && body != "<html>VF-CUSTOM-502</html>" {
+						res.failf("wrong-error-page", "%s: the custom 502 page must be sent exactly as written (%d bytes), got %d bytes: %q", desc, len("<html>VF-CUSTOM-502</html>"), len(body), c13Trunc(resp.Body))
+						return
+					}
 					if custom != strings.Contains(body, "VF-CUSTOM-502") {
 						res.failf("wrong-error-page", "%s: custom page expected=%v, body=%q", desc, custom, c13Trunc(resp.Body))
 						return
 					}
-					if !custom && !strings.Contains(body, fmt.Sprintf("<title>%d", st)) {
+					if !custom && (!strings.Contains(body, fmt.Sprintf("<title>%d", st)) || strings.Count(body, "<title>") != 1) {
 						res.failf("wrong-error-page", "%s: built-in %d page expected, body=%q", desc, st, c13Trunc(resp.Body))
 						return
 					}
